@@ -16,12 +16,12 @@ import pandas as pd
 JSON_KINDS = ('int', 'float', 'str', 'bool', 'dict', 'list')
 FILE_KINDS = JSON_KINDS + ('ndarray', 'frame', 'series', 'gen')
 DIR_KINDS = ('dir', 'listnp', 'cont')
-ALL_KINDS = FILE_KINDS + DIR_KINDS + ('genlazy', 'mem')
+ALL_KINDS = FILE_KINDS + DIR_KINDS + ('genlazy', 'mem', 'memobj')
 
 EXT = {
     'int': 'json', 'float': 'json', 'str': 'json', 'bool': 'json', 'dict': 'json', 'list': 'json',
     'ndarray': 'npy', 'frame': 'pd', 'series': 'pd', 'gen': 'jsonl', 'genlazy': 'jsonl',
-    'dir': None, 'listnp': None, 'cont': None, 'mem': None,
+    'dir': None, 'listnp': None, 'cont': None, 'mem': None, 'memobj': None,
 }
 
 _ALPHA = 'abcdefghijklmnopqrstuvwxyzABCDEFGHIJKLMNOPQRSTUVWXYZ0123456789 _-.,:;!?/\\\'"{}[]()<>@#$%^&*+=|~`\t\n'
@@ -51,7 +51,12 @@ def digest(obj) -> str:
 def _gen_str(r: random.Random, maxlen=12) -> str:
     n = r.choice([0, 1, 1, 2, 3, 5, 8, maxlen])
     pool = _ALPHA if r.random() < 0.6 else _ALPHA + _UNI
-    return ''.join(r.choice(pool) for _ in range(n))
+    s = ''.join(r.choice(pool) for _ in range(n))
+    if r.random() < 0.06:
+        # characters that str.splitlines() treats as line boundaries although '\n'-based readers do not
+        k = r.randint(0, len(s))
+        s = s[:k] + r.choice(['\u2028', '\u2029', '\x85', '\x0b', '\x0c', '\x1c', '\x1d', '\x1e', '\r', '\r\n']) + s[k:]
+    return s
 
 
 def _gen_int(r):
@@ -240,6 +245,9 @@ def make_value(kind: str, h: str):
         return [gen_array(r) for _ in range(r.choice([0, 1, 2, 3, 11]))] + [np.frombuffer(bytes.fromhex(h[:16]), dtype=np.uint8).copy()]
     if kind == 'mem':
         return {'h': tag, 'v': gen_json(r, 2)}
+    if kind == 'memobj':
+        # payload of a user-defined in-memory data object with __len__: legitimately empty (falsy) sometimes
+        return [] if r.random() < 0.35 else [tag, gen_json(r, 2)]
     raise ValueError(kind)
 
 
@@ -353,7 +361,7 @@ def write_dir_spec(spec: dict, base: Path):
 
 def canon_expected(kind: str, value):
     """canon of the value make_value(kind, h) as taskchain is expected to hand it to callers."""
-    if kind in JSON_KINDS or kind in ('gen', 'mem'):
+    if kind in JSON_KINDS or kind in ('gen', 'mem', 'memobj'):
         return canon_json(value)
     if kind == 'genlazy':
         return canon_json(value)
@@ -371,6 +379,8 @@ def canon_expected(kind: str, value):
 def canon_observed(kind: str, value):
     """canon of what taskchain returned for a task of data kind `kind`."""
     try:
+        if kind == 'memobj':
+            return canon_json(getattr(value, 'payload', {'$notbox': type(value).__name__}))
         if kind in JSON_KINDS or kind in ('gen', 'mem'):
             return canon_json(value)
         if kind == 'genlazy':
